@@ -19,7 +19,7 @@ CHECK = {
            'Histories (allocations, links, deletions, collections in every order) are explored by the C17/C06 state graph, whose oracle also rejects a reclaimed reachable object.'),
   'bounds': {
     'quick': 'n=2 all 8 representations x 5 root kinds (both collection modes); n=3 over {plain, Box, Table} x {none, stack, thread-local}; ladders 0..102 children; chains to 10^5 links',
-    'thorough': 'n=2 complete; n=3 over {plain, Ref, Box, Table, Tuple} x all 5 root kinds, n=3 over {Array, List, Tree} x {none, stack, new_root}; ladders; chains to 10^6 links',
+    'thorough': 'n=2 and n=3 complete (all 8 representations x all 5 root kinds, forced collection; threshold collection over 5 representations); n=4 over {plain}, {plain, Tuple} and {plain, Box}; register roots n=2, n=3; ladders; chains to 10^6 links',
   },
   'assumptions': [
     'reclamation of unreachable nodes is only counted (unreachable_reclaimed), never demanded',
@@ -35,7 +35,8 @@ CHECK = {
               + [R('ladder', 'base', 'mode=ladder'), R('ladder-asan', 'asan', 'mode=ladder'), R('chain', 'base', 'mode=chain', 'maxlen=100000')]),
     'thorough': (shapes('n2', 'base', 2, 'prbaltTu', '-snrt', 1, 'forced') + shapes('n2', 'base', 2, 'prbaltTu', '-snrt', 1, 'threshold')
               + shapes('n2asan', 'asan', 2, 'prbaltTu', '-snrt', 2, 'forced')
-              + shapes('n3a', 'base', 3, 'prbtu', '-snrt', 10, 'forced') + shapes('n3b', 'base', 3, 'alT', '-sn', 2, 'threshold')
+              + shapes('n3all', 'base', 3, 'prbaltTu', '-snrt', 16, 'forced') + shapes('n3thr', 'base', 3, 'prbtu', '-st', 4, 'threshold')
+              + shapes('n4plain', 'base', 4, 'p', '-s', 1, 'forced') + shapes('n4pu', 'base', 4, 'pu', '-s', 8, 'forced') + shapes('n4pb', 'base', 4, 'pb', '-st', 8, 'threshold')
               + shapes('n2reg', 'cfg-gcc-O0', 2, 'prbaltTu', '-gs', 1, 'forced') + shapes('n2reg', 'cfg-gcc-O0', 2, 'prbaltTu', '-gs', 1, 'threshold') + shapes('n3reg', 'cfg-gcc-O0', 3, 'pbtu', '-g', 2, 'forced')
               + [R('ladder', 'base', 'mode=ladder'), R('ladder-asan', 'asan', 'mode=ladder'), R('chain', 'base', 'mode=chain', 'maxlen=1000000', timeout=3000)]),
   },
